@@ -97,6 +97,17 @@ def prep_goto(job, wd):
         txt, n = re.subn(rx, rep, txt)
         if n != 1: raise BuildError('front-end: text patch %r matched %d times (source changed shape)' % (rx, n))
         open(base + '.i', 'w').write(txt)
+    if 'dr_dag_node * child;' in txt and not job.cfg.get('real_dr_types'):
+        # mechanical type patch (DAG recorder): the anonymous union {child | {subgraphs, parent/active_section}} of struct
+        # dr_dag_node becomes a struct (separate storage).  A node is a create_task node or a section/task, told apart by
+        # info.kind, and the code never reads one view after writing the other; cbmc's widest-member byte-level
+        # representation of the union made every list pointer non-constant (29M variables for a one-node shape).
+        txt, n = re.subn(r'union \{(\s*dr_dag_node \* child;)', r'struct {\1', txt)
+        if n != 1: raise BuildError('front-end: struct dr_dag_node changed shape; union patch not applicable')
+        # same for dr_worker_specific_state: union { struct {...}; char minimum_size[64]; } is only padding
+        txt, n = re.subn(r'(typedef struct dr_worker_specific_state \{\s*)union \{', r'\1struct {', txt)
+        if n != 1: raise BuildError('front-end: dr_worker_specific_state changed shape; union patch not applicable')
+        open(base + '.i', 'w').write(txt)
     if 'myth_tls_tree_node_sz_leaf' in txt:
         txt, n = TLS_ENUM_RE.subn(TLS_ENUM_SUB, txt)
         if n != 1:
@@ -318,6 +329,7 @@ def run_cbmc(job, target, wd, res, extra=(), extra_props=None):
 
 def run_job(job):
     res = JobResult(job)
+    if os.environ.get('VERIF_MAX_TIMEOUT'): job.timeout = min(job.timeout, int(os.environ['VERIF_MAX_TIMEOUT']))
     wd = os.path.join(scratch(), re.sub(r'[^A-Za-z0-9_.-]', '_', job.name))
     os.makedirs(wd, exist_ok=True); res.workdir = wd
     t0 = time.time()
@@ -384,6 +396,42 @@ def save_replay(pid, res, v):
                    nondet_choices=v.get('nd'), decoded_steps=steps[:400], native_replay=v.get('native')), open(path, 'w'), indent=1)
     return path
 
+def redirect_calls(txt, mapping):
+    """text-level equivalent of goto-instrument --replace-calls on preprocessed C: identifiers in `mapping` are renamed to
+    <name>__orig at brace depth 0 (declarations, definition) and to the stub's name inside function bodies (calls); a prototype
+    of the stub (taken from its definition in the harness) is inserted before the first top-level item that calls it"""
+    protos = {}
+    for f, st in mapping.items():
+        m = re.search(r'(?m)^([A-Za-z_][\w \t\*]*?)\b%s\s*\(([^{;]*?)\)\s*\{' % re.escape(st), txt)
+        if m: protos[st] = '%s %s(%s);\n' % (m.group(1).strip(), st, m.group(2))
+    out = []; i = 0; n = len(txt); depth = 0; item_start = 0; done = set()
+    ident = re.compile(r'[A-Za-z_][A-Za-z0-9_]*')
+    while i < n:
+        c = txt[i]
+        if c == '"' or c == "'":
+            j = i + 1
+            while j < n and txt[j] != c:
+                j += 2 if txt[j] == '\\' else 1
+            out.append(txt[i:j + 1]); i = j + 1; continue
+        if c == '{': depth += 1
+        elif c == '}':
+            depth -= 1
+            if depth == 0: out.append(c); i += 1; item_start = len(out); continue
+        elif c == ';' and depth == 0:
+            out.append(c); i += 1; item_start = len(out); continue
+        m = ident.match(txt, i) if (c.isalpha() or c == '_') else None
+        if m:
+            w = m.group(0)
+            if w in mapping:
+                if depth == 0: w = w + '__orig'
+                else:
+                    w = mapping[w]
+                    if w in protos and w not in done:
+                        out.insert(item_start, '\n' + protos[w]); done.add(w)
+            out.append(w); i = m.end(); continue
+        out.append(c); i += 1
+    return ''.join(out)
+
 def native_replay(res, v):
     """re-execute the counterexample natively: compile the same query source with gcc, nondeterministic
     choices baked from the solver's assignment; the same assertion must fire."""
@@ -404,7 +452,19 @@ def native_replay(res, v):
     if job.engine == 'A':
         src = os.path.join(VERIF, job.src)
         exe = os.path.join(wd, 'replay_' + re.sub(r'\W', '_', v['prop']))
-        cmd = ['gcc', '-O1', '-fno-strict-aliasing', '-w', '-DVERIF_NATIVE=1', '-include', os.path.join(VERIF, 'model', 'native_shim.h')] + CPPFLAGS + ['-DMYTH_WRAP=' + job.wrap] + job.defs + [src, '-o', exe, '-lpthread', '-ldl']
+        pre = ['-O1', '-fno-strict-aliasing', '-w', '-DVERIF_NATIVE=1', '-include', os.path.join(VERIF, 'model', 'native_shim.h')] + CPPFLAGS + ['-DMYTH_WRAP=' + job.wrap] + job.defs
+        if job.replace_calls or job.remove_bodies:
+            # the query replaced calls f -> stub (goto-instrument); do the same on the preprocessed text for the native build:
+            # occurrences of f at brace depth 0 are its declarations/definition (renamed away), occurrences inside bodies are calls
+            ni = os.path.join(wd, 'native.i')
+            rc, out, err, _, _ = run(['gcc', '-E', '-P'] + pre + [src, '-o', ni], timeout=120)
+            if rc != 0: return dict(ok=None, why='native preprocess failed: ' + err[-400:])
+            if job.remove_bodies: return dict(ok=None, why='no native replay: query removed function bodies (havoc)')
+            txt = redirect_calls(open(ni).read(), dict(rc_.split(':') for rc_ in job.replace_calls))
+            nc = os.path.join(wd, 'native_rc.c'); open(nc, 'w').write(txt)
+            cmd = ['gcc', '-O1', '-fno-strict-aliasing', '-w', nc, '-o', exe, '-lpthread', '-ldl']
+        else:
+            cmd = ['gcc'] + pre + [src, '-o', exe, '-lpthread', '-ldl']
         rc, out, err, _, _ = run(cmd, timeout=120)
         if rc != 0: return dict(ok=None, why='native compile failed: ' + err[-400:])
         rc, out, err, _, _ = run([exe], timeout=60, env=dict(os.environ, VERIF_ND_FILE=vals))
